@@ -16,6 +16,8 @@ to the real exponax code is executed symbolically.
 """
 from __future__ import annotations
 
+import os
+
 from fractions import Fraction
 
 import numpy as np
@@ -42,7 +44,7 @@ def build(ck):
     ck.encode_fn(ex.BaseStepper.step, ex.rollout, S.Diffusion, S.Advection, S.Dispersion, S.Burgers, S.KortewegDeVries, S.KuramotoSivashinsky, S.NavierStokesVorticity, S.Wave, ex.nonlin_fun.VorticityConvection2d, ex.nonlin_fun.Leray)
     ck.bound(f"1D N={N} for the stepper classes listed, 2D N={N} for the vorticity stepper; ETDRK orders 0-2; rollout n=2; states, tangents, cotangents symbolic; parameters symbolic")
     ck.assume("real arithmetic; JAX's differentiation rules are part of the program under test (the JVP/VJP jaxprs are what is executed)")
-    ck.out_of_scope("derivatives w.r.t. dt / coefficients THROUGH the contour coefficients of orders >= 2 (needs d/dz of the quadrature); degree > 4 steps by exact stencil")
+    ck.out_of_scope("degree > 4 steps by exact stencil; derivatives w.r.t. PDE coefficients of nonlinear steppers are covered in two links: symbol -> ETDRK coefficients (etdrk-coefficients, all orders) and coefficient -> symbol (params, linear steppers)")
     only = getattr(ck, "only", None)
     want = lambda t: (not only) or only in t
     thorough = ck.tier == "thorough"
@@ -66,6 +68,12 @@ def build(ck):
         _adjoint(ck, "rollout(Burgers,2)", ex.repeat(st, 2), (1, N))
     if want("params"):
         _parameters(ck)
+    if want("etdrk-coefficients"):
+        # M = 16 is the default contour (the tangent programs of code and documentation coincide term by term there);
+        # M = 2 keeps the rational identities small enough for nlsat when they do NOT coincide syntactically
+        for M in (16, 2):
+            for order in (1, 2, 3, 4):
+                _etdrk_coefficient_derivatives(ck, order, M=M)
     if want("finite"):
         _finiteness(ck)
 
@@ -129,6 +137,125 @@ def _adjoint(ck, nm, fn, shape, stretch=False):
     lhs = _inner(ins[2].sym, enc.outs[0])
     rhs = _inner(enc.outs[1], ins[1].sym)
     ck.add(f"adjoint/{nm}", sym.equal_goal(lhs, rhs), [], family="reverse mode is the adjoint of forward mode", timeout=300, stretch=stretch, replay=_fd_replay(fn, shape))
+
+
+def _reference_coefficients(order, M):
+    """the documented Cox-Matthews / Kassam-Trefethen coefficients as an independent jnp program: dt times the
+    M-point contour mean of the documented integrands on the circle of radius 1 around dt*lambda (exponax stores
+    them in this order; ETDRK3's fourth coefficient carries the documented factor 4)"""
+    roots = ex.etdrk.roots_of_unity(M)  # the documented contour exp(2 pi i (j - 1/2)/M) (its values are C02's obligation)
+
+    def ref(dt, lam):
+        # written as the documentation states it: sum over the contour points of the integrand, divided by M, times dt
+        L_dt = lam * dt
+        acc = None
+        for j in range(M):
+            lr = 1.0 * roots[j] + L_dt
+            E, Eh = jnp.exp(lr), (jnp.exp(lr / 2) if order >= 3 else None)
+            phi1 = (E - 1) / lr
+            if order >= 3:
+                h = (Eh - 1) / lr
+                a = (-4 - lr + E * (4 - 3 * lr + lr**2)) / lr**3
+                b = (2 + lr + E * (-2 + lr)) / lr**3
+                c = (-4 - 3 * lr - lr**2 + E * (4 - lr)) / lr**3
+            g = {1: lambda: [phi1], 2: lambda: [phi1, (E - 1 - lr) / lr**2], 3: lambda: [h, phi1, a, (4.0 * (2.0 + lr + E * (-2 + lr))) / lr**3, c], 4: lambda: [h, h, h, a, b, c]}[order]()
+            acc = [jnp.zeros_like(x) + x for x in g] if acc is None else [s_ + x for s_, x in zip(acc, g)]
+        lead = (jnp.exp(dt * lam),) + ((jnp.exp(0.5 * dt * lam),) if order >= 3 else ())
+        return lead + tuple(dt * (s_ / M) for s_ in acc)
+
+    return ref
+
+
+def _etdrk_coefficient_derivatives(ck, order, M=16):
+    """forward-mode derivative of every stored ETDRK-p coefficient w.r.t. the linear symbol and w.r.t. dt equals
+    the derivative of the documented contour formula (both JVP programs are executed symbolically; they share the
+    Ackermannised exponentials of the contour points).  Covers lambda = 0 and complex symbols."""
+    from vlib.modular import CLS, leaf_names
+
+    fam = f"d(ETDRK{order} coefficients)/d(symbol, dt) = derivative of the documented contour formula"
+    names = leaf_names(order)
+    ins = [In("dt", (), lo=0.05, hi=0.5), In("lam", (1, 1), "complex", lo=-2.0, hi=2.0), In("tdt", (), lo=-1.0, hi=1.0), In("tlam", (1, 1), "complex", lo=-1.0, hi=1.0)]
+    code = lambda dt, lam: tuple(getattr(CLS[order](dt, lam, ex.nonlin_fun.ZeroNonlinearFun(1, 4), num_circle_points=M), n) for n in names)
+    ref = _reference_coefficients(order, M)
+
+    def f(dt, lam, tdt, tlam):
+        _, tc = jax.jvp(code, (dt, lam), (tdt, tlam))
+        _, tr = jax.jvp(ref, (dt, lam), (tdt, tlam))
+        return tuple(tc) + tuple(tr)
+
+    enc = Encoded(f, ins, tag=f"ec{order}m{M}")
+    enc.validate(ck, what=f"etdrk-coefficients/order{order}/M{M}")
+    tag = f"etdrk-coefficients/order{order}/M{M}"
+    n = len(names)
+    pre = [ins[0].s > 0]
+    # staged congruence: the exponentials of the code's JVP program and of the documented program are paired by their
+    # arguments (obligation: equal arguments); equal results are then assumed for the tangent identities
+    import random
+    from vlib.numeval import NumEval
+
+    calls = enc.interp.calls.get("exp", [])
+    ne = NumEval(enc.random_values(random.Random(11)), ack=enc.interp.ackdefs)
+    half = len(calls) // 2
+    same, subst, nonzero = [], [], []
+    if len(calls) % 2 == 0:
+        for a, b in zip(calls[:half], calls[half:]):
+            if a["arg"].shape != b["arg"].shape:
+                continue
+            for i in np.ndindex(a["arg"].shape):
+                xa, xb = sym.asc(a["arg"][i]), sym.asc(b["arg"][i])
+                if abs(complex(ne.scalar(xa)) - complex(ne.scalar(xb))) > 1e-9:
+                    continue
+                ck.add(f"{tag}/exp-arg/{len(same)}", sym.equal_goal(xa, xb), pre, family=fam + " (equal contour points)", replay=_coef_derivative_replay(order, M, 0, names[-1]))
+                oa, ob = sym.asc(a["out"][i]), sym.asc(b["out"][i])
+                if not (sym.is_conc(oa) and sym.is_conc(ob)):
+                    same += [sym.zr(oa.re) == sym.zr(ob.re), sym.zr(oa.im) == sym.zr(ob.im)]
+                    for x, y in ((ob.re, oa.re), (ob.im, oa.im)):
+                        if z3.is_expr(sym.zr(x)) and z3.is_const(sym.zr(x)) and sym.zr(x).decl().kind() == z3.Z3_OP_UNINTERPRETED:
+                            subst.append((sym.zr(x), sym.zr(y)))
+                if a["arg"].ndim == 3:  # a contour point: the coefficients are only defined when no contour point is the origin
+                    nonzero.append(sym.zr(xa.re) * sym.zr(xa.re) + sym.zr(xa.im) * sym.zr(xa.im) > 0)
+    pre = pre + nonzero
+
+    def goal_of(x, y):
+        g = sym.equal_goal(x, y)
+        if z3.is_expr(g) and subst:  # congruence: the documented program's exponentials are the code's (arguments proved equal above)
+            g = z3.simplify(z3.substitute(g, *subst))
+            if z3.is_true(g):
+                return True
+            if z3.is_false(g):
+                return False
+        return g
+    for k, nm_ in enumerate(names):
+        got, want_ = enc.outs[k], enc.outs[n + k]
+        if got.shape != want_.shape:
+            ck.add(f"{tag}/{nm_}/shape", False, [], family=fam, replay=_coef_derivative_replay(order, M, k, nm_))
+            continue
+        for i in np.ndindex(got.shape):
+            ck.add(f"{tag}/{nm_}/{'_'.join(map(str, i))}", goal_of(got[i], want_[i]), pre + same, family=fam, timeout=120, replay=_coef_derivative_replay(order, M, k, nm_))
+    # twin: the tangent w.r.t. the symbol is not identically zero
+    ck.add(f"{tag}/twin", sym.equal_goal(enc.outs[0][0, 0], Cx(ZERO, ZERO)), pre + same, family="C07/twin", expect="sat")
+
+
+def _coef_derivative_replay(order, M, k, nm_):
+    """central finite differences of the real constructor at stress points (zero, real, complex symbols)"""
+
+    def replay(model):
+        from vlib.modular import CLS
+
+        worst, where = 0.0, None
+        for M_ in (16, M):
+          for lam0 in (0.0 + 0.0j, -0.7 + 0.0j, 0.3 + 2.0j, 0.0 + 0.4j):
+            for dt0 in (0.5, 1.0):
+                coef = lambda dt, lam: getattr(CLS[order](dt, jnp.asarray([[lam]], dtype=jnp.complex128), ex.nonlin_fun.ZeroNonlinearFun(1, 4), num_circle_points=M_), nm_)[0, 0]
+                for what, tang, fd in (("d/d lambda", (0.0, 1.0 + 0.0j), lambda h: (coef(dt0, lam0 + h) - coef(dt0, lam0 - h)) / (2 * h)), ("d/d dt", (1.0, 0.0j), lambda h: (coef(dt0 + h, lam0) - coef(dt0 - h, lam0)) / (2 * h))):
+                    _, t = jax.jvp(lambda d, l: coef(d, l), (jnp.asarray(dt0), jnp.asarray(lam0)), (jnp.asarray(tang[0]), jnp.asarray(tang[1])))
+                    ref = fd(1e-5)
+                    e = abs(complex(t) - complex(ref)) / (1e-6 + abs(complex(ref)))
+                    if e > worst:
+                        worst, where = e, f"{what} of {nm_} at lambda={lam0}, dt={dt0}, {M_} contour points: jvp {complex(t):.8g} vs central differences {complex(ref):.8g}"
+        return {"reproduced": worst > 1e-5, "detail": f"ETDRK{order}: {where} (relative deviation {worst:.3g})"}
+
+    return replay
 
 
 def _parameters(ck):
